@@ -17,6 +17,9 @@ struct Setup {
     frags: Vec<Vec<(usize, usize)>>,
     nfrag: usize,
     complex: bool,
+    /// unrelated annotations (side, begin, end) made before the transposition exists: the text-selection handles of the
+    /// sides are then not in step
+    prior: Vec<(usize, usize, usize)>,
 }
 
 fn gen_setup(rng: &mut Rng, thorough: bool) -> Setup {
@@ -48,13 +51,28 @@ fn gen_setup(rng: &mut Rng, thorough: bool) -> Setup {
         texts.push(text);
         frags.push(pos);
     }
-    Setup { texts, frags, nfrag, complex }
+    let mut prior = Vec::new();
+    if rng.chance(1, 2) {
+        for _ in 0..rng.range(1, 3) {
+            let side = rng.below(texts.len());
+            let len = texts[side].chars().count();
+            if len >= 1 {
+                let b = rng.below(len);
+                let e = b + 1 + rng.below(len - b);
+                prior.push((side, b, e));
+            }
+        }
+    }
+    Setup { texts, frags, nfrag, complex, prior }
 }
 
 fn build(setup: &Setup) -> Result<AnnotationStore, String> {
     let mut store = AnnotationStore::new(Config::default().with_debug(false)).with_id("c16");
     for (i, t) in setup.texts.iter().enumerate() {
         store.add_resource(TextResourceBuilder::new().with_id(format!("r{}", i)).with_text(t.clone())).map_err(|e| e.to_string())?;
+    }
+    for (i, (side, b, e)) in setup.prior.iter().enumerate() {
+        store.annotate(AnnotationBuilder::new().with_id(format!("prior{}", i)).with_target(SelectorBuilder::textselector(format!("r{}", side), Offset::simple(*b, *e))).with_data("s", "type", "prior")).map_err(|e| e.to_string())?;
     }
     let tdata = |b: AnnotationBuilder<'static>| b.with_data("https://w3id.org/stam/extensions/stam-transpose/", "Transposition", DataValue::Null);
     if setup.complex {
@@ -355,8 +373,13 @@ pub fn run(p: &Params, rep: &mut Report) {
                 continue;
             }
         };
+        let sd = json!({"texts": setup.texts, "fragments_per_side": setup.frags, "complex": setup.complex, "prior_annotations": setup.prior});
         for n in 0..(if p.thorough { 12 } else { 8 }) {
-            one_source(rep, &mut rng, &setup, &mut store, &sd, n);
+            // the reads of the oracle go through the library too: a panic anywhere in there is a finding about the store, not a harness failure
+            if let Err(pn) = guard(|| one_source(rep, &mut rng, &setup, &mut store, &sd, n)) {
+                rep.violation(format!("C16/panic-while-examining-the-result/{}", pn.class()), json!({"setup": sd, "panic": pn.msg, "at": pn.loc}));
+                break;
+            }
         }
     }
 }
